@@ -1204,6 +1204,309 @@ class Result(object):
 LINE_RE = re.compile(r"^(R )?(\d+) (\S+) ret=(\S+) errno=(\S+) cb=(\d+) da=(\d+) live=(-?\d+)(?: val=(.*))?$")
 
 
+# ---------------------------------------------------------------------- property trees in faulted replays
+# harness/mem_harness.c prints the tree the op under test works on before the call ("S0 <idx> <dump>") and after the
+# failed call ("S1 <idx> <dump>").  classify_prop_failure says whether the tree after the failure is one of the
+# states vnaproperty_vset / vnaproperty_vset_subtree walk through while they make the path of the expression conform
+# (descend(): free a node of the wrong type, allocate the map / list, add the key / extend the list / insert / append a
+# null cell), the target cell still holding what it held before: the shape of the known finding DM55.
+def parse_prop_dump(text):
+    """dump -> None | ("s", hex) | ("l", [..]) | ("m", [(hexkey, value), ..]);  raises ValueError on '?' / garbage"""
+    pos = [0]
+
+    def node():
+        if pos[0] >= len(text):
+            raise ValueError("truncated")
+        c = text[pos[0]]
+        if c == "~":
+            pos[0] += 1
+            return None
+        if c == "s":
+            j = pos[0] + 1
+            while j < len(text) and text[j] in "0123456789abcdef":
+                j += 1
+            v = ("s", text[pos[0] + 1:j])
+            pos[0] = j
+            return v
+        if c == "[":
+            pos[0] += 1
+            items = []
+            while text[pos[0]] != "]":
+                if items:
+                    if text[pos[0]] != ",":
+                        raise ValueError("list")
+                    pos[0] += 1
+                items.append(node())
+            pos[0] += 1
+            return ("l", items)
+        if c == "{":
+            pos[0] += 1
+            items = []
+            while text[pos[0]] != "}":
+                if items:
+                    if text[pos[0]] != ",":
+                        raise ValueError("map")
+                    pos[0] += 1
+                j = text.index(":", pos[0])
+                key = text[pos[0]:j]
+                pos[0] = j + 1
+                items.append((key, node()))
+            pos[0] += 1
+            return ("m", items)
+        raise ValueError("unexpected %r" % c)
+    try:
+        v = node()
+    except IndexError:
+        raise ValueError("truncated")
+    if pos[0] != len(text):
+        raise ValueError("trailing")
+    return v
+
+
+def _isalpha(c):
+    return (65 <= c <= 90) or (97 <= c <= 122)
+
+
+def parse_prop_expr(b):
+    """the LL(1) grammar of parse() / scan() in vnaproperty.c on the bytes of the formatted expression.
+    Returns (components, token after the expression) with components ("key", hexname) | ("idx", i) | ("ins", i) |
+    ("app",) | ("map",) | ("list",) | ("dot",), or None when the expression is not accepted."""
+    n = len(b)
+    pos = [0]
+
+    def scan():
+        while pos[0] < n and b[pos[0]] in b"\f\n\r\t\v ":
+            pos[0] += 1
+        if pos[0] >= n or b[pos[0]] == 0:
+            return ("eof",)
+        c = b[pos[0]]
+        if c in b"#+.=[]{}":
+            pos[0] += 1
+            return (chr(c),)
+        if 48 <= c <= 57:
+            j = pos[0]
+            while j < n and 48 <= b[j] <= 57:
+                j += 1
+            v = int(b[pos[0]:j])
+            pos[0] = j
+            return ("int", v)
+        if _isalpha(c) or c >= 128 or c in b"_\\":
+            out = bytearray()
+            start = pos[0]
+            protected = start               # source position, compared with the (compacted) destination as the C code does
+            while True:
+                c = b[pos[0]] if pos[0] < n else 0
+                if c == 92:
+                    pos[0] += 1
+                    if pos[0] >= n or b[pos[0]] == 0:
+                        return ("error",)
+                    protected = pos[0]
+                    c = b[pos[0]]
+                out.append(c)
+                pos[0] += 1
+                c = b[pos[0]] if pos[0] < n else 0
+                if not (_isalpha(c) or 48 <= c <= 57 or c >= 128 or c in b" _-\\"):
+                    break
+            while start + len(out) - 1 > protected and out[-1] == 32:
+                out.pop()
+            return ("id", bytes(out).hex())
+        return ("error",)
+    comps = []
+    tok = scan()
+    state = 0
+    while True:
+        if state in (0, 1, 2):
+            if tok[0] == "." and state in (0, 2):
+                tok = scan()
+                state = 1
+                continue
+            if tok[0] == "id" and state in (0, 1):
+                comps.append(("key", tok[1]))
+                tok = scan()
+                state = 2
+                continue
+            if tok[0] == "[":
+                tok = scan()
+                if tok[0] == "int":
+                    i = tok[1]
+                    tok = scan()
+                    if tok[0] == "+":
+                        tok = scan()
+                        if tok[0] != "]":
+                            return None
+                        comps.append(("ins", i))
+                    elif tok[0] == "]":
+                        comps.append(("idx", i))
+                    else:
+                        return None
+                    tok = scan()
+                    state = 2
+                    continue
+                if tok[0] == "+":
+                    tok = scan()
+                    if tok[0] != "]":
+                        return None
+                    comps.append(("app",))
+                    tok = scan()
+                    state = 2
+                    continue
+                if tok[0] == "]":
+                    comps.append(("list",))
+                    tok = scan()
+                    return comps, tok
+                return None
+            if tok[0] == "{":
+                tok = scan()
+                if tok[0] != "}":
+                    return None
+                comps.append(("map",))
+                tok = scan()
+                return comps, tok
+            if state == 0:
+                return None
+            if state == 1:
+                comps.append(("dot",))
+            return comps, tok
+
+
+def prop_conform_states(tree, comps):
+    """every tree descend(set = true) passes through on the way down the expression, in order; the last one is the
+    fully conformed tree.  Trees are the values of parse_prop_dump."""
+    import copy
+    root = [copy.deepcopy(tree)]            # a one-cell list stands for the root pointer
+    states = []
+
+    def emit():
+        st = copy.deepcopy(root[0])
+        if not states or states[-1] != st:
+            states.append(st)
+    emit()
+    holder, key = root, 0                   # the anchor is holder[key]
+
+    def get():
+        return holder[key] if not isinstance(holder, tuple) else None
+
+    class Anchor(object):
+        def __init__(self, cont, k):
+            self.cont, self.k = cont, k
+
+        def get(self):
+            if isinstance(self.k, tuple):       # map item index
+                return self.cont[self.k[0]][1]
+            return self.cont[self.k]
+
+        def set(self, v):
+            if isinstance(self.k, tuple):
+                self.cont[self.k[0]] = (self.cont[self.k[0]][0], v)
+            else:
+                self.cont[self.k] = v
+    a = Anchor(root, 0)
+    for c in comps:
+        if c[0] == "dot":
+            break
+        want = "m" if c[0] in ("key", "map") else "l"
+        node = a.get()
+        if node is None:
+            a.set((want, []))
+            emit()
+        elif node[0] != want:
+            a.set(None)
+            emit()
+            a.set((want, []))
+            emit()
+        node = a.get()
+        items = node[1]
+        if c[0] in ("map", "list"):
+            break
+        if c[0] == "key":
+            found = [i for i, (k, _) in enumerate(items) if k == c[1]]
+            if not found:
+                items.append((c[1], None))
+                emit()
+                found = [len(items) - 1]
+            a = Anchor(items, (found[0],))
+        elif c[0] == "idx":
+            if c[1] >= len(items):
+                if c[1] > 100000:
+                    return None
+                items.extend([None] * (c[1] + 1 - len(items)))
+                emit()
+            a = Anchor(items, c[1])
+        elif c[0] == "ins":
+            if c[1] >= len(items):
+                if c[1] > 100000:
+                    return None
+                items.extend([None] * (c[1] + 1 - len(items)))
+            else:
+                items.insert(c[1], None)
+            emit()
+            a = Anchor(items, c[1])
+        elif c[0] == "app":
+            items.append(None)
+            emit()
+            a = Anchor(items, len(items) - 1)
+    return states
+
+
+def decode_arg(t):
+    """the %XX decoding of harness/mem_harness.c gets_() (bytes up to the first NUL)"""
+    out = bytearray()
+    i = 0
+    while i < len(t):
+        if t[i] == "%" and i + 2 < len(t) + 0 and len(t) - i >= 3:
+            try:
+                out.append(int(t[i + 1:i + 3], 16))
+                i += 3
+                continue
+            except ValueError:
+                pass
+        out += t[i].encode("latin-1", "replace")
+        i += 1
+    z = out.find(b"\0")
+    return bytes(out if z < 0 else out[:z])
+
+
+def classify_prop_failure(op_text, s0, s1):
+    """'unchanged' | 'path-conformed' | 'other' | 'no-dump': the tree after a call that failed with an injected
+    allocation failure, against the tree before it and the expression of the call"""
+    if s0 is None or s1 is None or s0 == "?" or s1 == "?":
+        return "no-dump"
+    if s0 == s1:
+        return "unchanged"
+    toks = op_text.split(" ")
+    name = toks[0]
+    if name in ("pset", "psetsub"):
+        expr = toks[2] if len(toks) > 2 else ""
+    elif name in ("cpset", "cpsetsub"):
+        expr = toks[3] if len(toks) > 3 else ""
+    else:
+        return "other"
+    try:
+        t0 = parse_prop_dump(s0)
+        t1 = parse_prop_dump(s1)
+    except ValueError:
+        return "no-dump"
+    parsed = parse_prop_expr(decode_arg(expr))
+    if parsed is None:
+        return "other"
+    states = prop_conform_states(t0, parsed[0])
+    if states is not None and t1 in states:
+        return "path-conformed"
+    return "other"
+
+
+def prop_expr_form(op_text):
+    """'append' / 'insert' when the expression of a pset-like op has a [+] / [N+] component (the only forms for which
+    conforming the path twice differs from conforming it once), else 'plain'"""
+    toks = op_text.split(" ")
+    expr = toks[3] if toks[0].startswith("c") and len(toks) > 3 else toks[2] if len(toks) > 2 else ""
+    parsed = parse_prop_expr(decode_arg(expr))
+    if parsed is None:
+        return "plain"
+    kinds = set(c[0] for c in parsed[0])
+    return "append" if "app" in kinds else "insert" if "ins" in kinds else "plain"
+
+
 def parse_out(out):
     lines = []
     end = None
@@ -1283,6 +1586,11 @@ def run_script(ctx, exe, ops, k=0, opindex=-1, timeout=60, leak=True, tag="s"):
     r = Result()
     r.rc, r.out, r.err = rc, out, err
     r.lines, r.end, r.fline = parse_out(out)
+    r.states = {}
+    for ln in out.splitlines():
+        if ln.startswith("S0 ") or ln.startswith("S1 "):
+            parts = ln.split(" ", 2)
+            r.states[parts[0]] = parts[2] if len(parts) > 2 else "?"
     r.fault = fault_signature(rc, err)
     r.leaks = leak_functions(err) if ("LeakSanitizer" in err) else {}
     r.completed = r.end is not None
